@@ -91,6 +91,30 @@ def strip_cfg(src, m):
                     declared.append(d.group(1))
             else:
                 end = match_brace(m, j) + 1
+        elif re.match(r"(if|match|for|while|loop)\b", m[i:i + 8]):
+            # a block-like expression statement: ends with the block (and its else-chain), no ';'
+            j = i
+            while True:
+                depth = 0
+                while j < n and not (m[j] == "{" and depth == 0):
+                    if m[j] in "([":
+                        depth += 1
+                    elif m[j] in ")]":
+                        depth -= 1
+                    elif m[j] == ";" and depth == 0:
+                        raise ExtractError("#[cfg(..)] block statement without a block")
+                    j += 1
+                if j >= n:
+                    raise ExtractError("#[cfg(..)] block statement without a block")
+                j = match_brace(m, j) + 1
+                k = j
+                while k < n and m[k].isspace():
+                    k += 1
+                if m.startswith("else", k) and not (m[k + 4].isalnum() or m[k + 4] == "_"):
+                    j = k + 4
+                    continue
+                break
+            end = j
         else:
             depth = 0
             j = i
